@@ -26,7 +26,7 @@ m = {
  "not_applicable": [{"property_id": k, "reason": v} for k, v in sorted(NOT_APPLICABLE.items())],
  "notes": "All claims are at level 'other': structural necessary conditions of each property decided for every CFG path / call site / table member of the current tree; the behavioural remainder is listed per check in level_note and in evidence.coverage.not_decided. See DESIGN.md.",
 }
-COMMON = (" Every check also carries rule R<n>.0 over the functions its own rules resolve as anchors: once the error of a step was tested non-nil, a nil-error return reachable only through that failure must lie behind a benign-error predicate of that error (IsConflict, IsNotFound, …) — a failed step of the mechanism is never turned into success (DESIGN.md §18.3); since round 5 the rule also covers what those functions call inside crossplane two levels down (static callees and the crossplane implementations of invoked interface methods), requires that the non-scalar results of a step are used only where its error is known to be nil (or handed back together with it), that an error which is only compared with nil is not followed by a success return, and that the long-lived objects of the mechanism write no state of their own beyond what is tabled (DESIGN.md §21)."
+COMMON = (" Every check also carries rule R<n>.0 over the functions its own rules resolve as anchors: once the error of a step was tested non-nil, a nil-error return reachable only through that failure must lie behind a benign-error predicate of that error (IsConflict, IsNotFound, …) — a failed step of the mechanism is never turned into success (DESIGN.md §18.3); since round 5 the rule also covers what those functions call inside crossplane four levels down (static callees and the crossplane implementations of invoked interface methods), requires that the non-scalar results of a step are used only where its error is known to be nil (or handed back together with it), that an error which is only compared with nil is not followed by a success return, and that the long-lived objects of the mechanism write no state of their own beyond what is tabled (DESIGN.md §21)."
           " The tree is first put into a normal form, source to source and meaning-preserving, the tree itself untouched (DESIGN.md §14.1, §18.1): helpers the reference list does not know (also generic ones, local closures, methods reached through method-value locals) are inlined into their callers, loops over local literal tables are written out row by row, reads of immutable package-level lookup tables become key comparisons, local structs that are only used field by field become one local per field; a stage whose output does not type-check is discarded. "
           "Every reachability query is path-sensitive in the small sense of DESIGN.md §14.2/§18.2 (constant flags, nil-ness of result temporaries, re-tested values, pure error predicates, phis refined by feasibility), "
           "so that the verdict does not depend on how the code is split into functions, tables or carrier structs, or how a condition is spelled.")
